@@ -20,6 +20,14 @@ Init == l = 1 /\ cur = NoTree
 
 Reset == Rec[l].ev = "Reset" /\ cur' = NoTree /\ l' = l + 1
 
+\* get_child / get_child_mut at the addressed element, for every name of interest
+LookupsOK(el, lks) ==
+  \A i \in 1..Len(lks) :
+     LET k == lks[i]
+     IN /\ k.found = HasChild(el, k.name) /\ k.found_mut = k.found
+        /\ k.found => /\ k.got = k.name /\ k.got_mut = k.name
+                       /\ k.t = GetChild(el, k.name).t /\ k.t_mut = k.t
+
 OpStep ==
   LET e == Rec[l]
       o == e.op
@@ -30,6 +38,7 @@ OpStep ==
              /\ (UniqueNames(e.before) /\ OpInDomain(o)) =>
                    /\ UniqueNames(e.after)                       \* child names stay unique
                    /\ OnlyAt(e.before, e.after, o.path, o)       \* the demanded effect, only there
+                   /\ LookupsOK(ElemAt(e.after, o.path), e.lookups) \* lookup addresses the child with the given name
      /\ cur' = e.after
      /\ l' = l + 1
 
